@@ -31,7 +31,8 @@ Supported fragment
   statements   expression / assignment / return (last statement of the method only) / pass / docstring ;
                ``x = A if tmpdir is None else B`` with calls in A / B ;
                if / else on: self._own_tmpdir (must be defined ``tmpdir is None`` in __init__), ``tmpdir is None``,
-               ``exc_type is None``, in_zip / self._in_zip, ``self._file is None`` (true when __enter__ runs) ;
+               ``exc_type is None`` (decided statically inside ``close``, which passes the literal None), in_zip / self._in_zip,
+               ``self._file is None`` (true when __init__ / __enter__ / the first write run, false in __exit__ / close) ;
                try / finally ; ``try … except Exception|OSError|BaseException: …; raise`` ;
                ``try … except Exception|OSError: pass`` ; ``with contextlib.suppress(OSError|Exception):``
   __exit__     must not return a value (a true value would swallow the writer's exception)
@@ -130,6 +131,7 @@ class Translator:
         self.attr_defs = {}
         self.preconditions = []
         self.dropped = []
+        self.file_is_none = True
         init = self.methods.get("__init__")
         if init is None:
             raise TranslationError("atomic_write has no __init__")
@@ -356,7 +358,9 @@ class Translator:
         if not pos:
             a, b = b, a
         if kind == "fileNone":
-            return a  # no file is open yet when __enter__ runs
+            # decided by the entry point: no file is open yet when __init__ / __enter__ / the first write run; one is when
+            # __exit__ / close run
+            return a if self.file_is_none else b
         if kind == "const":
             return a  # statically true (negation already applied)
         return ({"own": "ifOwn", "excNone": "ifExcNone", "zip": "ifZip"}[kind], a, b)
@@ -482,6 +486,7 @@ class Translator:
     def entry(self, name):
         if name not in self.methods:
             raise TranslationError(f"atomic_write has no {name}")
+        self.file_is_none = name not in ("__exit__", "close")
         return flatten(self.block(self.methods[name].body, {}, (name,), True, name))
 
 
